@@ -103,7 +103,9 @@ def listings(pattern, folders, opts):
                 k, off, size = w.member_range[i]
                 c.append(eq(eng, fi.attrs["uncompressed"], size))
                 total = eng.binop(ast.Add(), total, size)
-                if opts.get("crc_at", "sub") != "none" and (opts.get("crc_at") != "folder" or folders[k] == 1):
+                if en.get("crc_defined", True) is False:
+                    c.append(fi.attrs["crc32"] is None)     # the archive stores no CRC for this member
+                elif opts.get("crc_at", "sub") != "none" and (opts.get("crc_at") != "folder" or folders[k] == 1):
                     c.append(fi.attrs["crc32"] is not None)
                     if fi.attrs["crc32"] is not None:
                         c.append(eq(eng, fi.attrs["crc32"], en["crc"]))
@@ -163,7 +165,10 @@ def replay(pattern, folders, opts, witness):
             if e["kind"] in "fl":
                 if f.uncompressed != len(datas[di]):
                     return True, "size of %s" % e["name"]
-                if opts.get("crc_at", "sub") != "none" and f.crc32 != zlib.crc32(datas[di]):
+                if e.get("crc_defined", True) is False:
+                    if f.crc32 is not None:
+                        return True, "crc32 of %s reported %s although the archive stores none" % (e["name"], f.crc32)
+                elif opts.get("crc_at", "sub") != "none" and f.crc32 != zlib.crc32(datas[di]):
                     return True, "crc32 of %s reported %s" % (e["name"], f.crc32)
                 di += 1
         for n in names:
